@@ -178,6 +178,11 @@ func (s *service) GetChunkHashes(ctx context.Context, addr boson.Address, pyrami
 		bmtWriter := bmt.NewBmtWriter(&noopChainWriter{})
 		for hash, data := range pyramid {
 			var ref boson.Address
+			if len(data) > boson.ChunkSize+boson.SpanSize {
+				// the BMT ignores bytes past its capacity: an over-long entry would hash fine
+				err = ErrInvalidPyramid
+				return
+			}
 			args := pipeline.PipeWriteArgs{Data: data}
 			err = bmtWriter.ChainWrite(&args)
 			if err != nil {
